@@ -165,9 +165,12 @@ func (r *Runner) cpuMonitor() {
 		}
 		if dl != armedDeadline {
 			armedDeadline, cpuAtArm, armedAt = dl, processCPU(), time.Now()
-		} else if time.Since(armedAt) > 30*time.Second && processCPU()-cpuAtArm < int64(50*time.Millisecond) {
-			// not slow but stuck: half a minute of wall time in which the whole process used next to no CPU.
-			// A loaded machine slows a runnable process down, it does not bring its CPU use to zero.
+		} else if time.Since(armedAt) > 30*time.Second && processCPU()-cpuAtArm < int64(1500*time.Millisecond) {
+			// not slow but stuck: half a minute of wall time in which the whole process (runtime housekeeping and
+			// this monitor included) used less than 5% of one core (a blocked race-detector
+			// build measures 1.2%, a call that is running at all uses 100%). A loaded machine slows a runnable process
+			// down, it does not bring its CPU use to nothing; a call that is merely slow burns CPU and runs
+			// into the work bound instead.
 			Blocked(fmt.Sprintf("case=%v: the monitored call has not returned after %s and the process used %dms of CPU in that time", r.curCase.Load(), time.Since(armedAt).Round(time.Second), (processCPU()-cpuAtArm)/1e6))
 		}
 		if processCPU() > dl {
